@@ -38,6 +38,22 @@ func init() {
 			{Name: "decoded field run through os.ExpandEnv", ExpectRule: "C37.R1", ExpectKey: "os.ExpandEnv", Edits: []Edit{
 				{File: "internal/config/config.go", Old: "\t// Validate\n\tif err := cfg.Validate(); err != nil {\n\t\treturn nil, fmt.Errorf(\"config validation failed: %w\", err)", New: "\tcfg.Agent.DataDir = os.ExpandEnv(cfg.Agent.DataDir)\n\tif err := cfg.Validate(); err != nil {\n\t\treturn nil, fmt.Errorf(\"config validation failed: %w\", err)"},
 			}},
+			{Name: "expansion split into two sequential passes (braced, then bare)", ExpectRule: "C37.R1", ExpectKey: "single pass", Edits: []Edit{
+				{File: "internal/config/config.go", Old: "\treturn envVarRegex.ReplaceAllStringFunc(s, func(match string) string {", New: "\tf := func(match string) string {"},
+				{File: "internal/config/config.go", Old: "\t\treturn match // Keep original if not found\n\t})\n}", New: "\t\treturn match // Keep original if not found\n\t}\n\treturn bareVarRegex.ReplaceAllStringFunc(envVarRegex.ReplaceAllStringFunc(s, f), f)\n}\n\nvar bareVarRegex = regexp.MustCompile(`\\$([A-Za-z_][A-Za-z0-9_]*)`)"},
+			}},
+			{Name: "expansion repeated until no dollar is left", ExpectRule: "C37.R1", ExpectKey: "call site", Edits: []Edit{
+				{File: "internal/config/config.go", Old: "\treturn envVarRegex.ReplaceAllStringFunc(s, func(match string) string {", New: "\tfor i := 0; i < 4 && strings.Contains(s, \"$\"); i++ {\n\t\ts = expandOnce(s)\n\t}\n\treturn s\n}\n\nfunc expandOnce(s string) string {\n\treturn envVarRegex.ReplaceAllStringFunc(s, func(match string) string {"},
+			}},
+			{Name: "shell-style :- (set-but-empty takes the default)", ExpectRule: "C37.R3", Edits: []Edit{
+				{File: "internal/config/config.go", Old: "\t\t\tif val, ok := os.LookupEnv(varName); ok {", New: "\t\t\tif val, ok := os.LookupEnv(varName); ok && val != \"\" {"},
+			}},
+			{Name: "variable name upper-cased before the lookup", ExpectRule: "C37.R3", ExpectKey: "lookup", Edits: []Edit{
+				{File: "internal/config/config.go", Old: "\t\tif val, ok := os.LookupEnv(name); ok {", New: "\t\tif val, ok := os.LookupEnv(strings.ToUpper(name)); ok {"},
+			}},
+			{Name: "looked-up value trimmed before substitution", ExpectRule: "C37.R3", Edits: []Edit{
+				{File: "internal/config/config.go", Old: "\t\tif val, ok := os.LookupEnv(name); ok {\n\t\t\treturn val\n\t\t}", New: "\t\tif val, ok := os.LookupEnv(name); ok {\n\t\t\treturn strings.TrimSpace(val)\n\t\t}"},
+			}},
 			{Name: "dollar made optional in the pattern", ExpectRule: "C37.R2", Edits: []Edit{
 				{File: "internal/config/config.go", Old: "|\\$([A-Za-z_][A-Za-z0-9_]*)`)", New: "|\\$?([A-Za-z_][A-Za-z0-9_]*)`)"},
 			}},
